@@ -4,8 +4,9 @@
   All statements are about `Model.ScriptEval` (the mirror of scripteval.py in which every Python
   exception site is an explicit outcome) and quantify over ARBITRARY byte lists as scripts.
   Hypotheses: `HashesOK` (the hash primitives return at most 520 bytes — 20/32 for the real ones),
-  `0 ≤ inIdx` (a negative index is known finding D7), `fl.admissible` (CLEANSTACK ⇒ P2SH; the
-  other four flag sets are known finding D6).  Helper lemmas: Proofs/ScriptEval*.lean,
+  `∀ cls, ¬ c.Raises cls` (the modelled `RawSignatureHash` raises nothing but CScriptInvalidError:
+  for the real one, `0 ≤ inIdx` and a transaction in wire range — a negative index below −|vin| is
+  known finding D7), `fl.admissible` (CLEANSTACK ⇒ P2SH; the other four flag sets are known finding D6).  Helper lemmas: Proofs/ScriptEval*.lean,
   Proofs/ScriptVerify.lean.  Side-effect freedom on the Python heap is C09's subject; here the
   model is a pure function of its arguments, and the tie (harness/props/c07.py) checks that the
   real call leaves `txTo.serialize()` and both scripts unchanged.
@@ -23,24 +24,28 @@ theorem verify_total (c : Ctx) (fl : Flags) (sig spk : Bytes) :
   | ok u => left; rfl
   | error e => right; exact ⟨e, rfl⟩
 
-/-- the only foreign (non-ValidationError) exceptions `VerifyScript` can raise are the two known
-    findings: a negative `inIdx` (D7) or CLEANSTACK without P2SH (D6); in particular no
-    CScriptInvalidError, IndexError from the stack, KeyError from `OPCODE_NAMES`, struct.error,
-    ValueError, TypeError, UnboundLocalError or `assert len(stack)` failure is reachable -/
+/-- `only_known_findings_class`: the only foreign (non-ValidationError) exceptions `VerifyScript`
+    can raise are an exception that `RawSignatureHash` itself raised, with that exception's class
+    (`Ctx.Raises`: for the real one and a transaction in wire range that is IndexError for
+    `inIdx < −|vin|`, known finding D7 — `C06.Concrete.raises_real_iff`), or AssertionError when the
+    flag set has CLEANSTACK without P2SH (D6).  No CScriptInvalidError, IndexError from the stack,
+    KeyError from `OPCODE_NAMES`, struct.error of the number codec, ValueError, TypeError,
+    UnboundLocalError or `assert len(stack)` failure is reachable, for arbitrary byte strings. -/
 theorem only_known_findings (c : Ctx) (fl : Flags) (hh : HashesOK c.env.hashes) (sig spk : Bytes) (e : Err)
     (h : verifyScript c fl sig spk = .error e) (hv : e.isValidation = false) :
-    (∃ cls, e = .py cls) ∧ (c.inIdx < 0 ∨ fl.admissible = false) := by
+    ∃ cls, e = .py cls ∧ (c.Raises cls ∨ (cls = "AssertionError" ∧ fl.admissible = false)) := by
   have := verifyScript_verok (c := c) (fl := fl) hh sig spk
   rw [h] at this
   cases e with
   | eval cap => simp [Err.isValidation] at hv
   | verify => simp [Err.isValidation] at hv
   | invalid cap => exact absurd this id
-  | py cls => exact ⟨⟨cls, rfl⟩, this⟩
+  | py cls => exact ⟨cls, rfl, this⟩
 
-/-- containment: for an in-range (non-negative) input index and an admissible flag set,
-    `VerifyScript` on arbitrary byte strings returns normally or raises a ValidationError -/
-theorem verify_contained (c : Ctx) (fl : Flags) (hh : HashesOK c.env.hashes) (hi : 0 ≤ c.inIdx)
+/-- containment: when `RawSignatureHash` raises nothing but CScriptInvalidError (in-range index,
+    transaction in wire range) and the flag set is admissible, `VerifyScript` on arbitrary byte
+    strings returns normally or raises a ValidationError -/
+theorem verify_contained (c : Ctx) (fl : Flags) (hh : HashesOK c.env.hashes) (hi : ∀ cls, ¬ c.Raises cls)
     (hf : fl.admissible = true) (sig spk : Bytes) :
     verifyScript c fl sig spk = .ok () ∨
     ∃ e, verifyScript c fl sig spk = .error e ∧ e.isValidation = true := by
@@ -51,8 +56,8 @@ theorem verify_contained (c : Ctx) (fl : Flags) (hh : HashesOK c.env.hashes) (hi
     cases hv : e.isValidation with
     | true => rfl
     | false =>
-      obtain ⟨_, h1 | h2⟩ := only_known_findings c fl hh sig spk e h hv
-      · omega
+      obtain ⟨cls, _, h1 | ⟨_, h2⟩⟩ := only_known_findings c fl hh sig spk e h hv
+      · exact absurd h1 (hi cls)
       · rw [hf] at h2; cases h2
 
 /-- the state captured in an EvalScriptError raised by `VerifyScript` respects the interpreter's
@@ -68,7 +73,7 @@ theorem error_state_limits (c : Ctx) (fl : Flags) (hh : HashesOK c.env.hashes) (
 
 /-- `EvalScript` from a caller-supplied stack within the limits: final stack or ValidationError,
     for any script bytes -/
-theorem eval_contained (c : Ctx) (fl : Flags) (hh : HashesOK c.env.hashes) (hi : 0 ≤ c.inIdx)
+theorem eval_contained (c : Ctx) (fl : Flags) (hh : HashesOK c.env.hashes) (hi : ∀ cls, ¬ c.Raises cls)
     (stack : List Bytes) (script : Bytes) (B : Nat) (hB : 520 ≤ B) (hB2 : B < 2 ^ 32)
     (hs : stack.length ≤ 1000) (he : ∀ x ∈ stack, x.length ≤ B) :
     (∃ s, evalScript c fl stack script = .ok s) ∨
@@ -82,7 +87,7 @@ theorem eval_contained (c : Ctx) (fl : Flags) (hh : HashesOK c.env.hashes) (hi :
     | eval cap => right; exact ⟨cap, rfl⟩
     | verify => exact absurd h1 id
     | invalid cap => exact absurd hr (h2 cap)
-    | py cls => have : c.inIdx < 0 := h1; omega
+    | py cls => exact absurd h1 (hi cls)
 
 /-- limits as an invariant of `EvalScript` (by induction over the loop): the final stack has at
     most 1000 items, an error state at most 1003 and 221 counted operations, and no element ever
@@ -99,17 +104,36 @@ theorem eval_state_limits (c : Ctx) (fl : Flags) (hh : HashesOK c.env.hashes)
   · intro s hr; rw [hr] at h1; exact h1
   · intro cap hr; rw [hr] at h1; exact h1
 
+/-- the tight bound: BETWEEN operations (at the head of every loop iteration that is reached) the
+    interpreter's limits hold exactly — at most 1000 items on stack and altstack together and at
+    most 201 counted operations; only the state captured by an error raised inside an operation can
+    exceed them (by the at most 3 items / 20 keys that operation added: `error_state_limits`) -/
+theorem state_limits_between_ops (c : Ctx) (fl : Flags) (hh : HashesOK c.env.hashes) (script : Bytes)
+    (hlen : script.length ≤ Spec.MAX_SCRIPT_SIZE)
+    (op : Model.Script.RawOp) (hop : op.opcode ≤ 0x4e → op.data.isSome) (B : Nat) (hB : 520 ≤ B)
+    (hB2 : B < 2 ^ 32) (st st' : St)
+    (h1 : st.stack.length + st.alt.length ≤ 1000) (h2 : st.nOpCount ≤ 201)
+    (h3 : ∀ x ∈ st.stack, x.length ≤ B) (h4 : ∀ x ∈ st.alt, x.length ≤ B)
+    (hs : step c fl script op st = .ok st') :
+    st'.stack.length + st'.alt.length ≤ 1000 ∧ st'.nOpCount ≤ 201 ∧
+    (∀ x ∈ st'.stack, x.length ≤ B) ∧ (∀ x ∈ st'.alt, x.length ≤ B) := by
+  have := step_ok (c := c) fl script hlen op ⟨h1, h2, h3, h4⟩ hop hB hB2 hh
+  rw [hs] at this
+  exact this
+
 /-! ### non-vacuity -/
 
 /-- a context meeting the hypotheses: 20-byte hashes, index 0 of a 1-input transaction -/
 def exampleCtx : Ctx :=
-  { env := { hashes := { sha1 := fun _ => List.replicate 20 0, ripemd160 := fun _ => List.replicate 20 0,
-                         sha256 := fun _ => List.replicate 32 0 },
-             sigCheck := fun _ _ _ _ => false },
-    inIdx := 0, nVin := 1, nVout := 1 }
+  { hashes := { sha1 := fun _ => List.replicate 20 0, ripemd160 := fun _ => List.replicate 20 0,
+                sha256 := fun _ => List.replicate 32 0 },
+    sigHash := fun _ _ => .ok (List.replicate 32 0), sigVerify := fun _ _ _ => false }
 
 example : HashesOK exampleCtx.env.hashes := by
-  intro x; simp [exampleCtx]
+  intro x; simp [exampleCtx, Ctx.env]
+
+example : ∀ cls, ¬ exampleCtx.Raises cls := by
+  rintro cls ⟨_, _, x, _, _, h, _⟩; simp [exampleCtx] at h
 
 example : (Flags.all.filter Flags.admissible).length = 12 := by decide
 
